@@ -3934,9 +3934,13 @@ search_state_new(void) {
 
 static void
 search_postfix_clear(struct evdns_base *base) {
+	/* replacing the list of domains must not forget "ndots" */
+	int ndots = base->global_search_state ? base->global_search_state->ndots : 1;
 	search_state_decref(base->global_search_state);
 
 	base->global_search_state = search_state_new();
+	if (base->global_search_state)
+		base->global_search_state->ndots = ndots;
 }
 
 /* exported function */
